@@ -626,7 +626,7 @@ def persistent_state_rule(ctx, rule: str, scope_modules=("moclo.core._structured
                 construct = "%s#%s" % (qn, slot)
                 if how == "keyed":
                     key = node.targets[0].slice if isinstance(node, ast.Assign) else node.target.slice
-                    ok = _bare_names(value) - {"DNARegex", "re"} <= _bare_names(key) | _module_consts(mod)
+                    ok = _names(value) - {"DNARegex", "re"} <= _bare_names(key) | _module_consts(mod)
                     _emit(r, label, rule + ".class-slot", construct, ok,
                           "class-level container written at call time is not keyed by everything its value depends on (value uses %s, key uses %s)"
                           % (sorted(_bare_names(value)), sorted(_bare_names(key))), where, node)
@@ -687,7 +687,7 @@ def persistent_state_rule(ctx, rule: str, scope_modules=("moclo.core._structured
                 if hit:
                     name, nd, key, val = hit
                     if key is not None:
-                        ok = (_bare_names(val) - {"DNARegex", "re"}) <= (_bare_names(key) | _module_consts(mod))
+                        ok = (_names(val) - {"DNARegex", "re"}) <= (_bare_names(key) | _module_consts(mod))
                         det = "module-level cache `%s` written at call time is not keyed by everything its value depends on (value uses %s, key uses %s)" % (
                             name, sorted(_bare_names(val)), sorted(_bare_names(key)))
                     else:
